@@ -100,6 +100,25 @@ def handle_failure(res, spec, ov, name, r, stubbing, finding_keys):
         res.inconclusive.append("harness %s: reached a construct Kani does not support (%s)" % (name, desc))
         return
     key = finding_keys.get(name, "kani:%s" % name)
+    if test is None and name in spec.get("native_fallback", {}):
+        # Kani could not print a playback test (typically out of memory in the trace run): confirm the
+        # failing assertion by a native test that replays the harness' (small, bounded) input class
+        import nativetest
+        group, flt = spec["native_fallback"][name]
+        nfailed, npassed, nout = nativetest.run_native_test(group, flt)
+        obs = re.findall(r"NATIVE-FALLBACK (.*)", nout)
+        res.extra.setdefault("native_replays", []).append({"harness": name, "test": flt, "failed": nfailed, "observed": obs[:8]})
+        rdir = os.path.join(os.path.dirname(os.path.dirname(os.path.abspath(__file__))), "replays", prop)
+        os.makedirs(rdir, exist_ok=True)
+        path = os.path.join(rdir, name + ".native.log")
+        with open(path, "w") as f:
+            f.write(nout[-8000:])
+        if nfailed:
+            res.violation(key, "harness %s: %s (CBMC counterexample; Kani's trace run exhausted memory, failing inputs confirmed by "
+                          "native replay of the harness' input class: %s)" % (name, desc, "; ".join(obs[:3])), path)
+        else:
+            res.inconclusive.append("harness %s failed under CBMC (%s) but neither a playback test nor the native fallback reproduced it" % (name, desc))
+        return
     if test is None:
         # no concrete test could be generated; report as inconclusive, not violation
         rdir = os.path.join(os.path.dirname(os.path.dirname(os.path.abspath(__file__))), "replays", prop)
